@@ -302,6 +302,20 @@ func c20GenModule(r *rng) []c20Def {
 	seenT, seenC, seenG, seenM := map[string]bool{}, map[string]bool{}, map[string]bool{}, map[string]bool{}
 	for k := 2 + r.intn(5); k > 0; k-- {
 		n := c20Name(r, seenT)
+		// type names also start with the punctuation an identifier may start with (bytes below '0' and above), and
+		// may be plain numbers (%0, %12): all of it is ordered by the one natural order
+		switch x := r.intn(10); {
+		case x < 3:
+			n = string(r.pick("$._")) + n
+		case x < 4:
+			n = "-" + n
+		case x < 6:
+			n = fmt.Sprint(r.intn(40))
+		}
+		if seenT[n] {
+			continue
+		}
+		seenT[n] = true
 		defs = append(defs, c20Def{"type", n, fmt.Sprintf("%%%s = type { i32, i%d }", n, 1+r.intn(64))})
 	}
 	for k := 2 + r.intn(5); k > 0; k-- {
